@@ -19,6 +19,16 @@ def guidOK (E : SeqEnv) (cases : List (Str × List (Str × Str × Str × Option 
     let m := guidModelRun E c.1
     m.length == c.2.length && (m.zip c.2).all fun p => guidAgree p.1 p.2
 
+def simpleOK (E : SeqEnv) (re : RE) (typeName : Str) (cases : List (Str × List (Str × Str × Str))) : Bool :=
+  cases.all fun c => simpleModelRun E re typeName c.1 == c.2
+
+def urlSpecOK (E : SeqEnv) (zh : Bool) (cases : List (Str × List (Str × Str × Str))) : Bool :=
+  cases.all fun c => urlSpecRun E zh c.1 == c.2
+
+theorem all_take_drop {α : Type} (p : α → Bool) (l : List α) (n : Nat) (h1 : (l.take n).all p = true)
+    (h2 : (l.drop n).all p = true) : l.all p = true := by
+  rw [← List.take_append_drop n l, List.all_append, h1, h2]; rfl
+
 def boolOK (E : RTV.Choice.Env) (cases : List (Str × List (Str × Str × Bool))) : Bool :=
   cases.all fun c => boolModelRun E c.1 == some c.2
 
